@@ -216,7 +216,7 @@ def run_times(prop, runs, conform=True):
     return merged, validated, mismatches
 
 
-def times_family(prop, tier, runs, assumptions_extra, take_props=None, extra=None):
+def times_family(prop, tier, runs, assumptions_extra, take_props=None, extra=None, explanation=None):
     t0 = time.time()
     mi = mount()
     build(["e3m", "e3r"])
@@ -247,7 +247,7 @@ def times_family(prop, tier, runs, assumptions_extra, take_props=None, extra=Non
         "exhaustive": True,
         "histories_ended_by_process_death": sum(m["crashed"] for m in merged),
         "conformance_mismatches": len(mismatches),
-        "explanation": "states = distinct operation prefixes (each executed from a pristine process image, because the per-site call counters are statics of the image); transitions = operations judged; every sequence of exactly `depth` enabled operations over the alphabet B(egin) M/X (matching/non-matching call caught inside the scope) Mu/Xu (same, panic propagates out of the scope) E(nd scope) P(anic) O(utside call) was run for each listed N, all lifetimes of a history evaluating the same fake!(…, times: N) source line",
+        "explanation": explanation or "states = distinct operation prefixes (each executed from a pristine process image, because the per-site call counters are statics of the image); transitions = operations judged; every sequence of exactly `depth` enabled operations over the alphabet B(egin) M/X (matching/non-matching call caught inside the scope) Mu/Xu (same, panic propagates out of the scope) E(nd scope) P(anic) O(utside call) was run for each listed N, all lifetimes of a history evaluating the same fake!(…, times: N) source line",
     }
     if cov["distinct_outcomes"] < 2:
         raise MachineryError("vacuous exploration: fewer than two distinct observation logs")
@@ -267,6 +267,17 @@ def times_family(prop, tier, runs, assumptions_extra, take_props=None, extra=Non
                 cov[k] = v
         assumptions_extra = assumptions_extra + eass
     return finish(prop, tier, t0, cov, viols, COMMON_ASSUMPTIONS + assumptions_extra, mi)
+
+
+def check_c14(tier):
+    if tier == "quick":
+        runs = [["async", "--depth", "3", "--threads"], ["async", "--depth", "5", "--small"]]
+    else:
+        runs = [["async", "--depth", "4", "--threads"], ["async", "--depth", "7", "--small"]]
+    return times_family("C14", tier, runs,
+                        ["the executor is a hand-written block_on with a no-op waker that counts polls; one of the two awaits per function and step runs on a freshly spawned OS thread",
+                         "async function family: two u32 siblings, &str -> String, a 128-byte by-memory struct, unit, a method, a function that pends once, a function taking a drop-counted argument"],
+                        explanation="states = distinct operation prefixes over {FakeAsync(function, checked|unchecked flavour), DropInjector, PanicHere}; after every operation every function of the family is awaited twice (different arguments; directly, nested in an outer async fn, and on a second thread) and judged: ready on the first poll with a freshly evaluated value and the original body not run when faked, original value / poll count / body run when not; transitions = operations executed")
 
 
 def check_c07(tier):
@@ -610,6 +621,7 @@ CHECKS = {
     "C04": check_c04,
     "C08": check_c08,
     "C09": check_c09,
+    "C14": check_c14,
 }
 
 
@@ -627,6 +639,8 @@ def replay(pid, path):
         fam_args = case["args"]
         if fam_args and fam_args[0] == "times":
             fam_args = ["times", "--n", str(case["case"].get("n", 1))]
+        if fam_args and fam_args[0] == "async":
+            fam_args = ["async", "--threads"]
         rc = 0
         for b in ("e3", "e3real"):
             r = subprocess.run([bin_path(b)] + fam_args + ["--replay", path], capture_output=True, text=True, cwd=WORK, env=env_offline())
